@@ -4,19 +4,22 @@ import (
 	"fmt"
 	"io"
 	"net"
+	"net/http/httptest"
 	"os"
 	"path/filepath"
 	"runtime"
 	"strings"
 	"sync/atomic"
 	"time"
+
+	"github.com/whawty/auth/sasl"
 )
 
 type execd struct {
-	q        *creq // nil = internal upgrade request
-	upg      bool  // login succeeded with an upgradeable hash (and upgrades are on)
-	gen      bool  // a Generate call was seen (the hash was rewritten)
-	pw       string // password of the hasher call that revealed this execution
+	q         *creq  // nil = internal upgrade request
+	upg       bool   // login succeeded with an upgradeable hash (and upgrades are on)
+	gen       bool   // a Generate call was seen (the hash was rewritten)
+	pw        string // password of the hasher call that revealed this execution
 	preDigest string
 }
 
@@ -467,6 +470,117 @@ func suiteV10adv(c *vctx) {
 	}
 }
 
+// abandoned clients: complete requests arrive on the HTTP frontends and the saslauthd socket while
+// the dispatcher is busy (held inside a login), and the clients go away before they are served.
+// Whatever the frontends do about a vanished client, the dispatcher must get rid of those
+// requests and keep answering everybody else.
+func suiteV10abandon(c *vctx) {
+	r := c.r
+	n := 16
+	if c.thorough() {
+		n = 160
+	}
+	n = max(n/c.nshards, 1)
+	for i := 0; i < n; i++ {
+		mode := []string{"", "local", "http://127.0.0.1:1/api/update"}[r.Intn(3)]
+		a, err := newVAgent(c, fmt.Sprintf("ab%d", i), 1, mode, "", "", "")
+		if err != nil {
+			continue
+		}
+		rootpw := "Root-Passw0rd"
+		a.iface.Init("root", rootpw)
+		a.iface.Add("u1", "Init-u1", false)
+		srv := httptest.NewServer(a.mux)
+		sock := filepath.Join(c.work, fmt.Sprintf("ab%d.sock", i))
+		go runSaslAuthSocket(sock, a.iface) //nolint:errcheck
+		for k := 0; k < 100; k++ {
+			if _, err := os.Stat(sock); err == nil {
+				break
+			}
+			time.Sleep(5 * time.Millisecond)
+		}
+		g := a.installGate()
+		hold := &creq{kind: "auth", user: "root", pw: rootpw}
+		a.launch(hold)
+		held := false
+		select {
+		case <-g.ev:
+			held = true
+		case <-time.After(3 * time.Second):
+		}
+		nab := 1 + r.Intn(6)
+		kinds := ""
+		for k := 0; k < nab; k++ {
+			switch kind := r.Intn(3); kind {
+			case 0, 1:
+				cn, err := net.Dial("tcp", srv.Listener.Addr().String())
+				if err != nil {
+					continue
+				}
+				if kind == 0 {
+					body := `{"username":"u1","password":"Init-u1"}`
+					fmt.Fprintf(cn, "POST /api/authenticate HTTP/1.1\r\nHost: x\r\nContent-Type: application/json\r\nContent-Length: %d\r\n\r\n%s", len(body), body)
+					kinds += "api,"
+				} else {
+					fmt.Fprintf(cn, "GET /basic-auth HTTP/1.1\r\nHost: x\r\nAuthorization: Basic %s\r\n\r\n", b64std([]byte("u1:Init-u1")))
+					kinds += "basic,"
+				}
+				time.Sleep(time.Duration(5+r.Intn(40)) * time.Millisecond)
+				cn.Close()
+			default:
+				cn, err := net.Dial("unix", sock)
+				if err != nil {
+					continue
+				}
+				q := &sasl.Request{Login: "u1", Password: "Init-u1", Service: "s", Realm: "r"}
+				q.Encode(cn) //nolint:errcheck
+				time.Sleep(time.Duration(5+r.Intn(40)) * time.Millisecond)
+				cn.Close()
+				kinds += "sasl,"
+			}
+		}
+		time.Sleep(60 * time.Millisecond) // the servers notice that their clients are gone
+		g.mu.Lock()
+		g.free = true
+		g.mu.Unlock()
+		if held {
+			g.release <- true
+		}
+		wd := 4 * time.Second
+		answered := true
+		select {
+		case <-hold.done:
+		case <-time.After(wd):
+			answered = false
+		}
+		probe := &creq{kind: "check"}
+		a.launch(probe)
+		select {
+		case <-probe.done:
+		case <-time.After(wd):
+			answered = false
+		}
+		// and a well-behaved client on each frontend
+		okSasl := make(chan bool, 1)
+		go func() { ok, _, err := sasl.NewClient(sock).Auth("u1", "Init-u1", "s", "r"); okSasl <- ok && err == nil }()
+		select {
+		case ok := <-okSasl:
+			answered = answered && ok
+		case <-time.After(wd):
+			answered = false
+		}
+		dump := ""
+		if !answered {
+			dump = " " + vxs(goroutineDump()[:min(len(goroutineDump()), 500)])
+		}
+		c.emit(fmt.Sprintf("law.C10.every_request_is_answered abandoned-clients mode=%s n=%d kinds=%s held=%s%s", vxs(mode), nab, kinds, vtf(held), dump), vtf(answered))
+		srv.CloseClientConnections()
+		go srv.Close()
+		os.Remove(sock)
+		os.RemoveAll(a.dirPath)
+	}
+}
+
 func mode2(m string) string {
 	if m == "" || m == "local" {
 		return m
@@ -474,6 +588,10 @@ func mode2(m string) string {
 	return "remote"
 }
 
-func init() { vsuites["v10"] = suiteV10; vsuites["v10adv"] = suiteV10adv }
+func init() {
+	vsuites["v10"] = suiteV10
+	vsuites["v10adv"] = suiteV10adv
+	vsuites["v10ab"] = suiteV10abandon
+}
 
 var _ = filepath.Join
